@@ -639,7 +639,59 @@ def wl_factory(ctx, rng, i):
         ctx.nontrivial("factory", list_append, sorted(defaults), sorted(k for k in kw if k in ("external_references", "object_marking_refs", "created_by_ref")), call)
 
 
+def wl_versionless(ctx, rng, i):
+    """One member holds an id in versions, another holds the same id as content without any version information (an unvalidated
+    dictionary with neither modified nor created; a flat file): whatever the composite answers, it answers in every member order."""
+    import stix2
+    u = V.uuid_text(rng, 4)
+    t = "x-unregistered"
+    sid = "%s--%s" % (t, u)
+    nver = rng.choice([1, 2, 3])
+    base = V.instant_us(rng, 2015, 2022)
+    base -= base % 1000
+    versions = [{"type": t, "id": sid, "created": tsor.format_us(base - 10 ** 6, "millisecond", "min"), "modified": tsor.format_us(base + k * rng.choice([1000, 10 ** 6]), "millisecond", "min"), "name": "v%d" % k}
+                for k in range(nver)]
+    if rng.random() < 0.3:
+        for v in versions:
+            del v["modified"]            # versions told apart by created only
+        versions = versions[:1]
+    bare = {"type": t, "id": sid, "name": "no version information"}
+    tmp = tempfile.mkdtemp(prefix="stixmon-c18-")
+    try:
+        def member(kind, content, k):
+            if kind == "memory":
+                return stix2.MemorySource([json.loads(json.dumps(x)) for x in content], allow_custom=True)
+            d = tempfile.mkdtemp(dir=tmp)
+            stix2.FileSystemSink(d, allow_custom=True).add([json.loads(json.dumps(x)) for x in content])
+            return stix2.FileSystemSource(d, allow_custom=True)
+        kinds = (rng.choice(["memory", "memory", "filesystem"]), rng.choice(["memory", "memory", "filesystem"]))
+        extra = rng.random() < 0.4
+        answers = {}
+        layouts = [("versions-first", [0, 1]), ("bare-first", [1, 0])] if not extra else \
+            [("bare-in-the-middle", [0, 1, 2]), ("bare-first", [1, 0, 2]), ("bare-last", [2, 0, 1]), ("newest-first-bare-last", [2, 0, 1][::-1][::-1]), ("bare-first-newest-next", [1, 2, 0])]
+        for label, order in layouts:
+            try:
+                with warnings.catch_warnings():
+                    warnings.simplefilter("ignore")
+                    parts = [member(kinds[0], versions[:max(1, nver - 1)] if extra else versions, 0), member(kinds[1], [bare], 1)] + ([member("memory", versions[-1:], 2)] if extra else [])
+                    cds = stix2.CompositeDataSource()
+                    cds.add_data_sources([parts[k] for k in order])
+                    g = cds.get(sid)
+                    answers[label] = ("answer", None if g is None else json.dumps(norm(g), sort_keys=True))
+            except Exception as e:
+                answers[label] = ("raised", type(e).__name__)
+            ctx.ev()
+            ctx.count("versionless_member_lookups")
+        ctx.nontrivial("versionless", kinds, nver, extra, "modified" in versions[0])
+        if len(set(answers.values())) > 1:
+            ctx.violation("get-depends-on-member-order:version-less-member", "CompositeDataSource.get(%s) answers differently in different member orders when one member holds the id without version information: %s" % (
+                sid, {k: (v[0], (v[1] or "")[:80]) for k, v in answers.items()}), {"versions": versions, "bare": bare, "member_kinds": kinds, "answers": answers})
+    finally:
+        shutil.rmtree(tmp, ignore_errors=True)
+
+
 WORKLOADS = [
+    Workload("version-less-member", wl_versionless, quick=60, thorough=1500),
     Workload("partitions", wl_partition, quick=24, thorough=3000),
     Workload("factory", wl_factory, quick=150, thorough=3000),
 ]
